@@ -50,11 +50,19 @@ def gen_ir(rng):
         if i < k_nodefault:      # required parameters first (signature-legal)
             params[nm] = {"typ": rng.choice(["List[int]", "int", "str", "List[str]"]), "doc": rng.choice(T.PLAIN_DOCS)}
             continue
-        t = rng.choice(["int", "str", "float", "bool", "Optional[int]"])
+        t = rng.choice(["int", "str", "float", "bool", "Optional[int]", "Literal"])
+        if t == "Literal":
+            mem = rng.sample(["slow", "fast", "medium", "np", "tf"], rng.randint(2, 3))      # members in the order written, not sorted
+            params[nm] = {"typ": "Literal[%s]" % ", ".join("'%s'" % m for m in mem), "doc": rng.choice(T.PLAIN_DOCS), "default": mem[0]}
+            continue
         inner = t[9:-1] if t.startswith("Optional[") else t
         params[nm] = {"typ": t, "doc": rng.choice(T.PLAIN_DOCS),
                       "default": {"int": rng.choice([0, 5, 42]), "str": rng.choice(["x", "hello"]), "float": rng.choice([0.5, 2.25]),
                                   "bool": rng.choice([True, False])}[inner]}
+    if rng.random() < 0.2:
+        # a one-line description longer than the word wrapper's width
+        e = rng.choice(list(params.values()))
+        e["doc"] = "the rate at which the value is allowed to change between two consecutive steps, so keep it small enough for the run to stay stable"
     return {"name": "ConfigClass", "doc": "Thing description.", "params": params, "returns": None}
 
 
@@ -63,12 +71,13 @@ def emit_src(kind, ir):
     from cdd.shared.source_transformer import to_code
     ir = copy.deepcopy(ir)
     with contextlib.redirect_stderr(io.StringIO()):
+        # the files a user starts from are written without word wrap (a one-line description is one line in them)
         if kind == "class":
-            node = cdd.class_.emit.class_(ir, class_name=NAMES[kind])
+            node = cdd.class_.emit.class_(ir, class_name=NAMES[kind], word_wrap=False)
         elif kind == "function":
-            node = cdd.function.emit.function(ir, function_name=NAMES[kind], function_type="static")
+            node = cdd.function.emit.function(ir, function_name=NAMES[kind], function_type="static", word_wrap=False)
         else:
-            node = cdd.argparse_function.emit.argparse_function(ir, function_name=NAMES[kind])
+            node = cdd.argparse_function.emit.argparse_function(ir, function_name=NAMES[kind], word_wrap=False)
     return to_code(node)
 
 
@@ -106,7 +115,19 @@ def same_iface(kind, ir, gold, truth_kind):
         except Exception:  # noqa
             exp = gold
         _EXPECT[key] = exp
-    return [i for i in T.compare(_EXPECT[key], ir) if not i[0].startswith("returns")]
+    its = [i for i in T.compare(_EXPECT[key], ir) if not i[0].startswith("returns")]
+    # beyond what the format's own round trip settles: Literal members keep the truth's order, a one-line description stays one line
+    for name, p in (gold.get("params") or {}).items():
+        q = (ir.get("params") or {}).get(name) or {}
+        if not any(c_.startswith("param/typ") and d_.get("param") == name for c_, d_ in its) and \
+                T.typ_change(p.get("typ"), q.get("typ")) == "typ:Literal-members-reordered":
+            its.append(("param/typ:Literal-members-reordered", {"param": name, "in": p.get("typ"), "out": q.get("typ")}))
+        if "default" in p and p["default"] is not None and p["default"] != T.NoneStr and name in (ir.get("params") or {}) and "default" not in q and \
+                not any(c_.startswith("param/default") and d_.get("param") == name for c_, d_ in its):
+            its.append(("param/default-lost", {"param": name, "typ": p.get("typ"), "in": repr(p["default"]), "out": "<absent>"}))
+        if p.get("doc") and "\n" not in p["doc"] and "\n" in (q.get("doc") or "").strip():
+            its.append(("param/doc/line-break-inserted", {"param": name, "in": p["doc"], "out": q.get("doc")}))
+    return its
 
 
 def run_case(c):
@@ -375,6 +396,19 @@ def collect(ctx, n, _unused=0):
             st["class"] = "prefix"
         cases.append({"truth": truth, "states": st, "gold": g, "irs": {k: gen_ir(rng) for k in KINDS},
                       "before": {k: BEFORE[0] for k in KINDS}, "after": {k: AFTER[1] for k in KINDS}, "runs": 2})
+    # corpus: a truth with a description longer than the word wrapper's width and a Literal whose members are not in alphabetical order;
+    # the other two targets missing / empty / without the named definition
+    for truth in KINDS:
+        for st_other in ("missing", "empty", "different"):
+            g = {"name": "ConfigClass", "doc": "Thing description.", "returns": None, "params": OrderedDict((
+                ("alpha", {"typ": "int", "doc": "the first value", "default": 5}),
+                ("rate", {"typ": "float", "default": 0.5,
+                          "doc": "the rate at which the value is allowed to change between two consecutive steps, so keep it small enough for the run to stay stable"}),
+                ("mode", {"typ": "Literal['slow', 'fast', 'medium']", "doc": "the mode", "default": "slow"}),
+                ("seed", {"typ": "Optional[int]", "doc": "the seed", "default": 0}),          # falsy defaults on non-scalar annotations
+                ("verbose", {"typ": "Optional[bool]", "doc": "say more", "default": False})))}
+            cases.append({"truth": truth, "states": {k: ("different" if k == truth else st_other) for k in KINDS}, "gold": g,
+                          "irs": {k: gen_ir(rng) for k in KINDS}, "before": {k: BEFORE[2] for k in KINDS}, "after": {k: "" for k in KINDS}, "runs": 2})
     agg = {"n": 0, "ran": 0, "files": 0}
     items, corr = [], []
     for r in run_cases(worker, [cases[i:i + 4] for i in range(0, len(cases), 4)], chunk=1):
